@@ -38,14 +38,19 @@ func (f c17Factory) ZeroChunk() restic.ID       { return restic.Hash(make([]byte
 type c17Saver struct {
 	mu     sync.Mutex
 	chunks [][]byte
+	byID   map[restic.ID][]byte
 }
 
 func (s *c17Saver) SaveBlobAsync(_ context.Context, _ restic.BlobType, buf []byte, _ restic.ID, _ bool, cb func(restic.ID, bool, int, error)) {
 	cp := append([]byte(nil), buf...)
 	s.mu.Lock()
 	s.chunks = append(s.chunks, cp)
-	s.mu.Unlock()
 	id := restic.Hash(cp)
+	if s.byID == nil {
+		s.byID = map[restic.ID][]byte{}
+	}
+	s.byID[id] = cp
+	s.mu.Unlock()
 	go simrt.Wrap(func() { cb(id, false, len(cp), nil) })()
 }
 
@@ -97,14 +102,27 @@ func TestVerifC17(t *testing.T) {
 				}
 			}
 		}
+		// two workers with all files submitted at once, and files whose Close fails after a complete read
+		concurrent := tp.Choose(3) == 0
+		failClose := make([]bool, nFiles)
+		if tp.Choose(3) == 0 {
+			for i := range failClose {
+				failClose[i] = failAt[i] == 0 && tp.Choose(3) == 0
+			}
+		}
+		if concurrent && nFiles >= 3 && failAt[0] == 0 && tp.Choose(2) == 0 {
+			failClose[0] = true // the first file fails at Close, the others are then read side by side
+		}
 		r.Set("read_error_at", fmt.Sprint(failAt))
+		r.Set("two_workers", concurrent)
+		r.Set("close_fails", fmt.Sprint(failClose))
 		r.Set("max_short_read", short)
 		r.Set("eof_with_data", eofWithData)
-		r.CaseKey = fmt.Sprint(sizes, short, pol, eofWithData, failAt)
+		r.CaseKey = fmt.Sprint(sizes, short, pol, eofWithData, failAt, concurrent, failClose)
 		simrt.Run(r.T, s, 120*time.Second, func() {
 			root := &simfs.Node{Name: "src", Mode: 0o755 | (1 << 31)}
 			for i, c := range contents {
-				root.Add(&simfs.Node{Name: fmt.Sprintf("f%d", i), Mode: 0o644, Data: c, Inode: uint64(10 + i), Links: 1, FailReadAt: failAt[i]})
+				root.Add(&simfs.Node{Name: fmt.Sprintf("f%d", i), Mode: 0o644, Data: c, Inode: uint64(10 + i), Links: 1, FailReadAt: failAt[i], FailClose: failClose[i]})
 			}
 			sfs := simfs.New(root)
 			sfs.Park = true
@@ -118,9 +136,56 @@ func TestVerifC17(t *testing.T) {
 			s.Do("saver", nil, func() {
 				ctx := context.Background()
 				wg, ctx := errgroup.WithContext(ctx)
-				fsv := newFileSaver(ctx, wg, saver, c17Factory{pol}, 1)
+				nWorkers := uint(1)
+				if concurrent {
+					nWorkers = 2
+				}
+				fsv := newFileSaver(ctx, wg, saver, c17Factory{pol}, nWorkers)
 				fsv.NodeFromFileInfo = func(_, _ string, meta toNoder, ign bool) (*data.Node, error) {
 					return meta.ToNode(ign, func(string, ...any) {})
+				}
+				if concurrent {
+					// submit everything, then collect; the chunks of a file are found through its content IDs
+					futs := make([]futureNode, len(contents))
+					for i := range contents {
+						f, err := sfs.OpenFile(fmt.Sprintf("/src/f%d", i), fs.O_RDONLY, false)
+						if err != nil {
+							ferr = err
+							break
+						}
+						futs[i] = fsv.Save(ctx, "/", fmt.Sprintf("/src/f%d", i), f, func() {}, func() {}, func(*data.Node, ItemStats) {})
+					}
+					for i := range contents {
+						if ferr != nil {
+							break
+						}
+						res := futs[i].take(ctx)
+						if res.err != nil && (failAt[i] > 0 || failClose[i]) {
+							s.Count("fault:file-read-error")
+							failed[i] = true
+							continue
+						}
+						if res.err == nil && (failAt[i] > 0 || failClose[i]) {
+							r.Fail("lossless", "read-error-swallowed", "file %d: reading or closing it failed but saving it reported success", i)
+							failed[i] = true
+							continue
+						}
+						if res.err != nil {
+							ferr = res.err
+							break
+						}
+						saver.mu.Lock()
+						for _, id := range res.node.Content {
+							perFile[i] = append(perFile[i], saver.byID[id])
+						}
+						saver.mu.Unlock()
+						if uint64(len(contents[i])) != res.node.Size {
+							r.Fail("lossless", "node-size-or-content-count", "file %d: node says %d bytes, the file has %d bytes", i, res.node.Size, len(contents[i]))
+						}
+					}
+					fsv.TriggerShutdown()
+					_ = wg.Wait()
+					return
 				}
 				for i := range contents {
 					f, err := sfs.OpenFile(fmt.Sprintf("/src/f%d", i), fs.O_RDONLY, false)
@@ -134,7 +199,7 @@ func TestVerifC17(t *testing.T) {
 					saver.mu.Unlock()
 					fn := fsv.Save(ctx, "/", fmt.Sprintf("/src/f%d", i), f, func() {}, func() {}, func(*data.Node, ItemStats) {})
 					res := fn.take(ctx)
-					if res.err != nil && failAt[i] > 0 {
+					if res.err != nil && (failAt[i] > 0 || failClose[i]) {
 						// the injected read error: this file is skipped, the next one must be unaffected
 						s.Count("fault:file-read-error")
 						failed[i] = true
